@@ -74,7 +74,7 @@ def set_padding(m, meta):
 def histories(m, meta, n_hist=3000, seed=7):
     import os, random, gc
     import term_image.render._iterator as IT
-    from term_image.renderable import Renderable, Frame, FrameDuration, RenderArgs, Seek, ArgsNamespace
+    from term_image.renderable import Renderable, Frame, FrameDuration, RenderArgs, Seek, ArgsNamespace, IncompatibleRenderArgsError
     from term_image.render import RenderIterator, FinalizedIteratorError
     from term_image.padding import AlignedPadding, ExactPadding
     from term_image.geometry import Size
@@ -108,6 +108,12 @@ def histories(m, meta, n_hist=3000, seed=7):
 
     class FooArgs(ArgsNamespace, render_cls=Foo):
         x: int = 0
+
+    class Bar(Foo):
+        pass
+
+    class BarArgs(ArgsNamespace, render_cls=Bar):
+        y: int = 0
 
     def model_run(N, loops, ops):
         nxt, loop, closed, size, dur, x, pad = 0, loops, False, Size(2, 2), 10, 0, ExactPadding()
@@ -153,6 +159,10 @@ def histories(m, meta, n_hist=3000, seed=7):
                 dur = op[1]
             elif k == "args":
                 x = op[1]
+            elif k == "childargs":
+                # arguments of a proper subclass of the renderable's class are incompatible: rejected, nothing changes
+                tr.append(("incompat",))
+                continue
             elif k == "pad":
                 p = op[1]
                 if isinstance(p, AlignedPadding) and p.relative:
@@ -189,12 +199,16 @@ def histories(m, meta, n_hist=3000, seed=7):
                     it.set_frame_duration(op[1]); tr.append(("ok",))
                 elif k == "args":
                     it.set_render_args(RenderArgs(Foo, FooArgs(op[1]))); tr.append(("ok",))
+                elif k == "childargs":
+                    it.set_render_args(RenderArgs(Bar, BarArgs(op[1]))); tr.append(("ok",))
                 elif k == "pad":
                     it.set_padding(op[1]); tr.append(("ok",))
                 elif k == "close":
                     it.close(); tr.append(("ok",))
             except FinalizedIteratorError:
                 tr.append(("fin",))
+            except IncompatibleRenderArgsError:
+                tr.append(("incompat",))
             except ValueError:
                 tr.append(("verr",))
             except Exception as e:
@@ -212,7 +226,8 @@ def histories(m, meta, n_hist=3000, seed=7):
             elif c < 0.7: ops.append(("seek", rng.randint(-N - 1, N + 1), rng.choice(list(Seek))))
             elif c < 0.78: ops.append(("size", Size(rng.randint(2, 4), rng.randint(1, 3))))
             elif c < 0.84: ops.append(("dur", rng.choice([5, 20, FrameDuration.DYNAMIC, 0, -3])))
-            elif c < 0.9: ops.append(("args", rng.choice([0, 1, 2, 3, 2 ** 61])))      # hash(2**61) == hash(1): equal hashes, different arguments
+            elif c < 0.88: ops.append(("args", rng.choice([0, 1, 2, 3, 2 ** 61])))
+            elif c < 0.9: ops.append(("childargs", rng.choice([4, 5])))      # hash(2**61) == hash(1): equal hashes, different arguments
             elif c < 0.96: ops.append(("pad", rng.choice([ExactPadding(1, 0, 2, 1), AlignedPadding(6, 4), AlignedPadding(1, 1), ExactPadding(), AlignedPadding(0, -2)])))
             else: ops.append(("close",))
         return ops
